@@ -16,7 +16,7 @@ fn main() {
             scenarios,
             quick_runs: 4_000_000,
             thorough_runs: 100_000_000,
-            rule: "each run picks one monomorphic pipeline shape from the push catalogue (scenario = shape) and draws knobs first (closure parameter, 1-3 epochs sharing the shape's external state, 0-6 inputs per epoch over the value domain 0..7, independent Pending rates per downstream for poll_ready and poll_finalize, burst length, pull-side / future / stream Pending rates, immediate vs deferred wake-ups, spurious-poll rate, driver = real SendPush or hand driver and its legal variations), then the schedule (every Pending answer, wake delay, task pick, spurious poll). Distinct = distinct hash of (shape, realised decision trace); non-trivial = at least one item reached a downstream AND at least one non-benign decision fired (a Pending answer, a deferred wake-up or a spurious poll).",
+            rule: "each run picks one monomorphic pipeline shape from the push catalogue (scenario = shape) and draws knobs first (closure parameter, 1-3 epochs sharing the shape's external state, 0-6 inputs per epoch over the value domain 0..7, independent Pending rates per downstream for poll_ready and poll_finalize, burst length, pull-side / future / stream Pending rates, immediate vs deferred wake-ups, spurious-poll rate, coupled fan-out legs (leg 0 stays Pending until leg 1 was polled), driver = real SendPush or hand driver and its legal variations), then the schedule (every Pending answer, wake delay, task pick, spurious poll). Distinct = distinct hash of (shape, realised decision trace); non-trivial = at least one item reached a downstream AND at least one non-benign decision fired (a Pending answer, a deferred wake-up or a spurious poll).",
             time_unit: "executor steps + downstream polls",
             real: &[
                 "dfir_pipes::push::{Map, Filter, FilterMap, FlatMap, Flatten, Inspect, Fanout, Unzip, DemuxVar/PushVariadic, Accumulate + FoldState/ReduceState/SortState, Sort, FoldKeyed, ReduceKeyed, Persist, ResolveFutures, Sink, SinkCompat, FilterMapAsync, FlatMapStream, FlattenStream, VecPush, ForEach, StatePush} and the ready!/ready_both! macros",
@@ -53,6 +53,7 @@ fn main() {
                 "first_leg_only_pending_in_finalize",
                 "hand_finalize_without_ready",
                 "hand_redundant_poll_ready",
+                "coupled_leg_unblocked_by_sibling_poll",
                 "ready_pending",
                 "finalize_pending",
                 "pull_pending",
